@@ -448,7 +448,7 @@ Proof.
   induction l as [|i l IH]; intros acc Hsz Ha Hb; simpl; [lia|].
   pose proof (p2sh_term_bounds i) as Pb. pose proof (in_bytes_nonneg i) as Ib.
   assert (0 <= zsum (map in_bytes l)) by (apply zsum_map_nonneg; intros; apply in_bytes_nonneg).
-  simpl in Hb.
+  cbn [map zsum] in Hb.
   assert (in_bytes i <= 200000000) as Hi by (apply Hsz; left; reflexivity).
   unfold p2sh_term in *. rewrite is_p2sh_spec. destruct (spec_is_p2sh (si_prev_spk i)) eqn:Ep.
   - rewrite p2sh_sigop_count_spec.
@@ -524,7 +524,7 @@ Proof.
   assert (in_bytes i <= 200000000) as Hi by (apply Hsz; left; reflexivity).
   pose proof (in_bytes_nonneg i) as Ib.
   assert (0 <= zsum (map in_bytes l)) by (apply zsum_map_nonneg; intros; apply in_bytes_nonneg).
-  simpl in Hb.
+  cbn [map zsum] in Hb.
   rewrite count_witness_sigops_spec; [|exact Ok2|exact Ok1|].
   2:{ intros top Ht. pose proof (zsum_map_in_le zlen (si_witness i) top (fun y _ => zlen_nonneg y) Ht).
       unfold in_bytes in Hi. pose proof (zlen_nonneg (si_script_sig i)). pose proof (zlen_nonneg (si_prev_spk i)). lia. }
@@ -555,7 +555,7 @@ Proof.
   destruct (st_coinbase t) eqn:Ecb; [f_equal; lia|].
   rewrite p2sh_sigop_count_tx_spec by exact Hb. rewrite Ecb.
   rewrite wrapu32_id by (unfold UINT32_MAX; lia).
-  rewrite tx_script_bytes_eq in Hb. destruct (tx_parts_bounds t) as (B1 & B2 & B3 & B4).
+  pose proof (tx_script_bytes_eq t) as Eb. destruct (tx_parts_bounds t) as (B1 & B2 & B3 & B4).
   destruct flag_p2sh.
   - rewrite wrap64_id by (unfold INT64_MIN, INT64_MAX; lia).
     destruct flag_witness.
